@@ -712,27 +712,30 @@ Definition crash_tag (f0 : fs) (new : str) (r : option fs) : option (bool * Z * 
             end)
   end.
 
-(* crash points 0..n of one operation, cut i of [cuts] used at point i *)
-Definition crash_table (f : fs) (h : str) (o : op) (lens : list nat) (cuts : list nat)
+(* the state after a crash at each of the given (step number, cut) points of one operation *)
+Definition crash_table (f : fs) (h : str) (o : op) (lens : list nat) (points : list (nat * nat))
   : list (option (bool * Z * option (Z * bool))) :=
   let steps := op_steps f h o lens in
   let new := match read_db f with
              | Some d => match a_apply d h o with (Some d', _) => ser_db d' | _ => [] end
              | None => []
              end in
-  map (fun kc => crash_tag f new (crash_exec (fst kc) (snd kc) steps f))
-      (combine (seq 0 (S (List.length steps))) cuts).
+  map (fun kc => crash_tag f new (crash_exec (fst kc) (snd kc) steps f)) points.
 
 (* per item: result, (dir, file, tmp) observation, steps performed, crash table *)
-Fixpoint c_trace (f : fs) (l : list (item * list nat))
+Fixpoint c_trace (f : fs) (l : list (item * list (nat * nat)))
   :=
   match l with
   | [] => ([], f)
-  | (it, cuts) :: r =>
+  | (it, points) :: r =>
       let '(h, o, lens) := match it with Do h o lens => (h, o, lens) | Crash h o lens _ _ => (h, o, lens) end in
       let steps := op_steps f h o lens in
-      let tbl := crash_table f h o lens cuts in
+      let tbl := crash_table f h o lens points in
       let '(f1, x) := c_item f it in
       let '(rest, f2) := c_trace f1 r in
       ((out_obs x, (f_dir f1, obs_file (f_main f1), obs_file (f_tmp f1)), map step_code steps, tbl) :: rest, f2)
   end.
+
+Definition nats (l : list Z) : list nat := map Z.to_nat l.
+Definition nat_pairs (l : list (Z * Z)) : list (nat * nat) :=
+  map (fun p => (Z.to_nat (fst p), Z.to_nat (snd p))) l.
